@@ -28,14 +28,54 @@
 // i.e. after the batch was taken and passed both selects and before the first attempt; the same
 // read marks the batch as "taken".  Both injection points are points of the transporter's own
 // program order, so every run is deterministic.
+//
+// CONSTRUCTORS.  A case says through which constructor its worker is built ("ctor"):
+//
+//	""           ktransporter.NewTransporterWithInterface(..., &fakeKinesis, policy)   (test path)
+//	"production" ktransporter.NewTransporter(..., policy, &region, &keyId, &secret, &endpoint): the
+//	             constructor the factory calls.  It builds a real aws-sdk-go session and Kinesis client;
+//	             endpoint is a net/http/httptest server of this package (kinesisWire) which speaks just
+//	             enough of the Kinesis JSON 1.1 protocol: it decodes the PutRecords request with the
+//	             SDK's own jsonutil into a PutRecordsInput, calls the SAME fakeKinesis.PutRecords, and
+//	             encodes its output (or its error) back.  Script, observables, Gallina and monitor are
+//	             therefore those of the test path; what is added is everything the constructor does to
+//	             its arguments (retry policy, client, stream name) and the SDK's marshalling.
+//	"factory"    kinesis.New(...) of transport/transporters/kinesis/factory.go with its config map
+//	             (one worker).  Its retry policy is the production ExponentialBackOff (1.5 s first
+//	             interval, 5 min budget) and its logger is package-private (no hook: a recovered panic
+//	             cannot be seen), so only cases in which the first answer to every batch is a success
+//	             are run this way: no retry, no sleep, no panic.
+//
+// What cannot be said over the wire, and is kept out of production/factory cases:
+//   - backoff.Permanent: an SDK error is never a *backoff.PermanentError; "perm" steps become "err";
+//   - an empty Records list: the SDK's client-side parameter validation rejects it before anything is
+//     sent (the fake answers it like any other), so cases with an empty batch or with an answer
+//     "FailedRecordCount > 0 and no ErrorCode" (which makes the next request empty) stay on the test path.
+//
+// SDK-level retries: NewTransporter leaves aws.Config.MaxRetries unset, so the Kinesis client retries
+// by itself (default 3 times, with sleeps) every 5xx answer, every throttling code
+// (ProvisionedThroughputExceededException, ThrottlingException, ...) and every connection error,
+// INSIDE one PutRecords call of the transporter.  A scripted whole-call error is therefore sent as
+// HTTP 400 {"__type":"InvalidArgumentException"}, which the SDK's retryer never retries: one call of
+// the transporter = one request = one call of the fake.  (Per-record ErrorCodes are data of a 200
+// answer and are never looked at by the SDK.)  The SDK behaviour itself is measured once per run by
+// sdkRetryProbe and reported as a note.
+//
+// Infrastructure: a request the handler cannot decode, or an error seen by the transporter that is not
+// one of the scripted ones (connection failure, serialization, ... - recognised in the worker's own
+// "err ..." warning through the logrus hook, or for the factory by a failure stat that no scripted
+// answer explains) marks the case; a marked case is dropped and counted, never emitted or monitored.
 package kinesis
 
 import (
+	"bytes"
 	"encoding/json"
 	"errors"
 	"fmt"
 	"io"
 	"math/rand"
+	"net/http"
+	"net/http/httptest"
 	"os"
 	"path/filepath"
 	"sort"
@@ -50,10 +90,12 @@ import (
 	"github.com/Nextdoor/pg-bifrost.git/stats"
 	"github.com/Nextdoor/pg-bifrost.git/transport"
 	"github.com/Nextdoor/pg-bifrost.git/transport/progress"
+	kfactory "github.com/Nextdoor/pg-bifrost.git/transport/transporters/kinesis"
 	kbatchpkg "github.com/Nextdoor/pg-bifrost.git/transport/transporters/kinesis/batch"
 	ktransporter "github.com/Nextdoor/pg-bifrost.git/transport/transporters/kinesis/transporter"
 	kutils "github.com/Nextdoor/pg-bifrost.git/transport/transporters/kinesis/utils"
 	"github.com/aws/aws-sdk-go/aws"
+	"github.com/aws/aws-sdk-go/private/protocol/json/jsonutil"
 	awskinesis "github.com/aws/aws-sdk-go/service/kinesis"
 	"github.com/aws/aws-sdk-go/service/kinesis/kinesisiface"
 	"github.com/cenkalti/backoff/v4"
@@ -103,9 +145,65 @@ type kbatch struct {
 
 type kcase struct {
 	Mode    string   `json:"mode"`
+	Ctor    string   `json:"ctor,omitempty"` // "" | "production" | "factory" (see the package comment)
 	N       uint64   `json:"n"`
 	Ctx0    bool     `json:"ctx0,omitempty"`
 	Batches []kbatch `json:"batches"`
+}
+
+const (
+	ctorProduction = "production"
+	ctorFactory    = "factory"
+	streamName     = "stream"
+	// whole-call errors on the wire: HTTP 400 with a code the SDK's retryer does not retry
+	wireErrStatus = 400
+	wireErrCode   = "InvalidArgumentException"
+)
+
+// wireReason says why a case cannot be run through the real SDK client ("" = it can).
+func wireReason(c kcase) string {
+	for _, b := range c.Batches {
+		if len(b.Recs) == 0 {
+			return "empty-batch"
+		}
+		for _, s := range b.Script {
+			if s.Kind == "resp" && s.Cnt != 0 && countTrue(s.Codes) == 0 {
+				return "empty-request-next"
+			}
+		}
+	}
+	return ""
+}
+
+// factoryEligible: the first answer to every batch passes the worker's success test, so the
+// factory's ExponentialBackOff never sleeps and nothing panics.
+func factoryEligible(c kcase) bool {
+	for _, b := range c.Batches {
+		if len(b.Script) == 0 || b.Script[0].Kind != "resp" || b.Script[0].Cnt != 0 {
+			return false
+		}
+	}
+	return wireReason(c) == ""
+}
+
+// chooseCtor gives a generated case of the production share its constructor (and the reason when
+// it has to stay on the test path).
+func chooseCtor(c *kcase) (notEligible string) {
+	if r := wireReason(*c); r != "" {
+		return r
+	}
+	for i := range c.Batches {
+		for j := range c.Batches[i].Script {
+			if c.Batches[i].Script[j].Kind == "perm" {
+				c.Batches[i].Script[j].Kind = "err"
+			}
+		}
+	}
+	c.Ctor = ctorProduction
+	if factoryEligible(*c) {
+		c.Ctor = ctorFactory
+	}
+	return ""
 }
 
 // normalize pads every script to n+1 steps with plain whole-call errors (the transporter makes
@@ -113,6 +211,14 @@ type kcase struct {
 func normalize(c *kcase) {
 	if c.N > 64 {
 		c.N = 64
+	}
+	switch c.Ctor {
+	case "", ctorProduction, ctorFactory:
+	default:
+		c.Ctor = ""
+	}
+	if c.Ctor != "" && wireReason(*c) != "" {
+		c.Ctor = ""
 	}
 	for i := range c.Batches {
 		for uint64(len(c.Batches[i].Script)) < c.N+1 {
@@ -124,7 +230,13 @@ func normalize(c *kcase) {
 			default:
 				c.Batches[i].Script[j].Kind = "err"
 			}
+			if c.Ctor != "" && c.Batches[i].Script[j].Kind == "perm" {
+				c.Batches[i].Script[j].Kind = "err" // backoff.Permanent does not exist on the wire
+			}
 		}
+	}
+	if c.Ctor == ctorFactory && !factoryEligible(*c) {
+		c.Ctor = ctorProduction
 	}
 }
 
@@ -137,9 +249,10 @@ type rawRec struct {
 }
 
 type kcall struct {
-	ids  []uint64
-	raw  []rawRec
-	step kstep // the answer given
+	ids    []uint64
+	raw    []rawRec
+	stream string
+	step   kstep // the answer given
 }
 
 type kentry struct {
@@ -156,6 +269,7 @@ type kobs struct {
 	stopped  bool // TerminateCtx cancelled before the harness closed the input
 	panicked bool // "Recovered in KinesisTransporter" logged by shutdown()
 	harness  []string
+	infra    string // production/factory case whose HTTP plumbing failed: dropped, never reported
 }
 
 // ---- fakes ----
@@ -171,6 +285,16 @@ type runState struct {
 	cut      map[int]bool
 	stray    int // calls outside any offered batch
 	panicMsg string
+	infra    string // first infrastructure problem of a production/factory case
+	wire     bool   // the worker talks to the fake through the real SDK client
+}
+
+func (rs *runState) noteInfra(msg string) {
+	rs.mu.Lock()
+	if rs.infra == "" {
+		rs.infra = msg
+	}
+	rs.mu.Unlock()
 }
 
 type fakeTime struct{ rs *runState }
@@ -210,7 +334,10 @@ func parseID(data []byte) uint64 {
 func (f *fakeKinesis) PutRecords(in *awskinesis.PutRecordsInput) (*awskinesis.PutRecordsOutput, error) {
 	rs := f.rs
 	rs.mu.Lock()
-	kc := kcall{}
+	kc := kcall{stream: "<nil>"}
+	if in.StreamName != nil {
+		kc.stream = strings.Clone(*in.StreamName)
+	}
 	for _, r := range in.Records {
 		rr := rawRec{id: ^uint64(0)}
 		if r != nil {
@@ -284,7 +411,140 @@ func (h *panicHook) Fire(e *logrus.Entry) error {
 		h.rs.panicMsg = e.Message
 		h.rs.mu.Unlock()
 	}
+	// the worker's own account of a failed attempt ("err <error>"): on the wire path anything that
+	// is neither a scripted whole-call error nor the worker's per-record summary is plumbing
+	if h.rs.wire && strings.HasPrefix(e.Message, "err ") &&
+		!strings.Contains(e.Message, "scripted") && !strings.Contains(e.Message, "records failed to be put to Kinesis") {
+		h.rs.noteInfra("the worker saw an unscripted error: " + strings.SplitN(e.Message, "\n", 2)[0])
+	}
 	return nil
+}
+
+// ---- the wire: just enough of Kinesis JSON 1.1 for PutRecords ----
+
+var prodEnvOnce sync.Once
+
+// prodEnv keeps the SDK's session from looking anywhere outside the process.
+func prodEnv() {
+	prodEnvOnce.Do(func() {
+		os.Setenv("AWS_EC2_METADATA_DISABLED", "true")
+		os.Setenv("AWS_SHARED_CREDENTIALS_FILE", os.DevNull)
+		os.Setenv("AWS_CONFIG_FILE", os.DevNull)
+		for _, k := range []string{"AWS_SDK_LOAD_CONFIG", "AWS_PROFILE", "AWS_DEFAULT_PROFILE", "AWS_CA_BUNDLE", "AWS_ROLE_ARN", "AWS_WEB_IDENTITY_TOKEN_FILE"} {
+			os.Unsetenv(k)
+		}
+	})
+}
+
+const kinesisTarget = "Kinesis_20131202.PutRecords"
+
+func writeKinesisError(w http.ResponseWriter, status int, code, msg string) {
+	b, _ := json.Marshal(map[string]string{"__type": code, "message": msg})
+	w.Header().Set("Content-Type", "application/x-amz-json-1.1")
+	w.Header().Set("Content-Length", fmt.Sprint(len(b)))
+	w.WriteHeader(status)
+	_, _ = w.Write(b)
+}
+
+// kinesisWire delegates every PutRecords request to the scripted fake.
+type kinesisWire struct{ fk *fakeKinesis }
+
+func (h kinesisWire) ServeHTTP(w http.ResponseWriter, r *http.Request) {
+	rs := h.fk.rs
+	body, err := io.ReadAll(r.Body)
+	if err != nil || r.Method != http.MethodPost || r.Header.Get("X-Amz-Target") != kinesisTarget {
+		rs.noteInfra(fmt.Sprintf("unexpected request %s %s target %q (body error: %v)", r.Method, r.URL.Path, r.Header.Get("X-Amz-Target"), err))
+		writeKinesisError(w, wireErrStatus, wireErrCode, "harness: unexpected request")
+		return
+	}
+	in := &awskinesis.PutRecordsInput{}
+	if err := jsonutil.UnmarshalJSON(in, bytes.NewReader(body)); err != nil {
+		rs.noteInfra("undecodable PutRecords request: " + err.Error())
+		writeKinesisError(w, wireErrStatus, wireErrCode, "harness: undecodable request")
+		return
+	}
+	out, ferr := h.fk.PutRecords(in)
+	if ferr != nil {
+		writeKinesisError(w, wireErrStatus, wireErrCode, ferr.Error())
+		return
+	}
+	b, err := jsonutil.BuildJSON(out)
+	if err != nil {
+		rs.noteInfra("unencodable PutRecords answer: " + err.Error())
+		writeKinesisError(w, wireErrStatus, wireErrCode, "harness: unencodable answer")
+		return
+	}
+	w.Header().Set("Content-Type", "application/x-amz-json-1.1")
+	w.Header().Set("Content-Length", fmt.Sprint(len(b)))
+	w.WriteHeader(http.StatusOK)
+	_, _ = w.Write(b)
+}
+
+// sdkRetryProbe measures, on the production constructor, what the SDK client does with an answer
+// its own retryer considers retryable: one batch of one record, retry budget 0, the endpoint
+// answers HTTP 500 once and then accepts.  Returns a sentence for rep.Notes.
+func sdkRetryProbe() string {
+	prodEnv()
+	var mu sync.Mutex
+	requests := 0
+	srv := httptest.NewServer(http.HandlerFunc(func(w http.ResponseWriter, r *http.Request) {
+		_, _ = io.Copy(io.Discard, r.Body)
+		mu.Lock()
+		requests++
+		first := requests == 1
+		mu.Unlock()
+		if first {
+			writeKinesisError(w, http.StatusInternalServerError, "InternalFailure", "probe")
+			return
+		}
+		w.Header().Set("Content-Type", "application/x-amz-json-1.1")
+		_, _ = io.WriteString(w, `{"FailedRecordCount":0,"Records":[{"SequenceNumber":"1","ShardId":"s"}]}`)
+	}))
+	defer srv.Close()
+	bb, err := buildBatch(0, []uint64{1})
+	if err != nil {
+		return "SDK retry probe: inconclusive (" + err.Error() + ")"
+	}
+	sh := shutdown.NewShutdownHandler()
+	in := make(chan transport.Batch)
+	txns := make(chan *ordered_map.OrderedMap, 1)
+	statsChan := make(chan stats.Stat, 64)
+	logger := logrus.New()
+	logger.Out = io.Discard
+	region, keyID, secret, endpoint := "us-east-1", "AKIDHARNESS", "harness-secret", srv.URL
+	tp := ktransporter.NewTransporter(sh, in, txns, statsChan, *logger.WithField("package", "kinesis"), 1, streamName,
+		backoff.WithMaxRetries(&backoff.ZeroBackOff{}, 0), &region, &keyID, &secret, &endpoint)
+	done := make(chan struct{})
+	go func() {
+		defer close(done)
+		defer func() { _ = recover() }()
+		tp.StartTransporting()
+	}()
+	written := false
+	select {
+	case in <- bb.b:
+		select {
+		case m, ok := <-txns:
+			written = ok && m != nil
+		case <-time.After(waitLimit):
+		}
+	case <-time.After(waitLimit):
+	}
+	sh.CancelFunc()
+	select {
+	case <-done:
+	case <-time.After(waitLimit):
+	}
+	mu.Lock()
+	n := requests
+	mu.Unlock()
+	switch {
+	case n >= 2 && written:
+		return fmt.Sprintf("production constructor, SDK retry probe: NewTransporter leaves aws.Config.MaxRetries unset; with a retry budget of 0 an HTTP 500 InternalFailure answer was retried inside the SDK (%d requests for the worker's single PutRecords call) and the batch was reported written. The budget C11 speaks of counts calls of the client, not requests to Kinesis (the S3 constructor sets MaxRetries 0). Scripted whole-call errors are therefore sent as HTTP %d %s, which the SDK does not retry.", n, wireErrStatus, wireErrCode)
+	case n == 1 && !written:
+		return "production constructor, SDK retry probe: an HTTP 500 answer was NOT retried inside the SDK (1 request, batch not written with budget 0)"
+	}
+	return fmt.Sprintf("production constructor, SDK retry probe: inconclusive (%d requests, written=%v)", n, written)
 }
 
 // ---- real batches ----
@@ -371,8 +631,12 @@ func runImpl(c kcase) (kobs, []*builtBatch) {
 	txns := make(chan *ordered_map.OrderedMap)
 	statsChan := make(chan stats.Stat, 64)
 	statsDone := make(chan struct{})
+	failureStats := 0 // read after statsDone
 	go func() {
-		for range statsChan {
+		for s := range statsChan {
+			if s.StatName == "failure" {
+				failureStats++
+			}
 		}
 		close(statsDone)
 	}()
@@ -386,8 +650,43 @@ func runImpl(c kcase) (kobs, []*builtBatch) {
 	ktransporter.TimeSource = &fakeTime{rs}
 	defer func() { ktransporter.TimeSource = old }()
 
-	tp := ktransporter.NewTransporterWithInterface(sh, in, txns, statsChan, *log, 1, "stream",
-		&fakeKinesis{rs: rs}, backoff.WithMaxRetries(&backoff.ZeroBackOff{}, c.N))
+	fk := &fakeKinesis{rs: rs}
+	policy := backoff.WithMaxRetries(&backoff.ZeroBackOff{}, c.N)
+	var tp transport.Transporter
+	if c.Ctor == "" {
+		tp = ktransporter.NewTransporterWithInterface(sh, in, txns, statsChan, *log, 1, streamName, fk, policy)
+	} else {
+		prodEnv()
+		rs.wire = true
+		srv := httptest.NewServer(kinesisWire{fk})
+		defer srv.Close()
+		region, keyID, secret, endpoint := "us-east-1", "AKIDHARNESS", "harness-secret", srv.URL
+		worker, err := func() (tp transport.Transporter, err error) {
+			defer func() {
+				if r := recover(); r != nil { // session.Must
+					err = fmt.Errorf("%v", r)
+				}
+			}()
+			if c.Ctor == ctorFactory {
+				tps := kfactory.New(sh, txns, statsChan, 1, []<-chan transport.Batch{in}, map[string]interface{}{
+					kfactory.ConfVarStreamName: streamName, kfactory.ConfVarAwsRegion: region,
+					kfactory.ConfVarAwsAccessKeyId: keyID, kfactory.ConfVarAwsSecretAccessKey: secret,
+					kfactory.ConfVarEndpoint: endpoint})
+				if len(tps) != 1 || tps[0] == nil {
+					return nil, fmt.Errorf("the factory returned %d workers for 1", len(tps))
+				}
+				return *tps[0], nil
+			}
+			return ktransporter.NewTransporter(sh, in, txns, statsChan, *log, 1, streamName, policy, &region, &keyID, &secret, &endpoint), nil
+		}()
+		if err != nil {
+			obs.infra = "the constructor failed: " + err.Error()
+			close(statsChan)
+			<-statsDone
+			return obs, built
+		}
+		tp = worker
+	}
 	if c.Ctx0 {
 		sh.CancelFunc()
 	}
@@ -454,9 +753,14 @@ loop:
 	if len(obs.harness) == 0 {
 		close(statsChan)
 		<-statsDone
+		if c.Ctor == ctorFactory && failureStats > 0 {
+			// a factory case has no failing answer in reach: a failed attempt is a client-side failure
+			rs.noteInfra(fmt.Sprintf("%d failed attempts in a case whose scripted answers all succeed", failureStats))
+		}
 	}
 	rs.mu.Lock()
 	defer rs.mu.Unlock()
+	obs.infra = rs.infra
 	if escaped != nil {
 		obs.harness = append(obs.harness, fmt.Sprintf("a panic escaped StartTransporting: %v", escaped))
 	}
@@ -625,6 +929,9 @@ func monitor(c kcase, obs kobs, built []*builtBatch) (vs []core.Violation, outsi
 		for k, kc := range e.calls {
 			if !isSubseq(kc.ids, b.Recs) {
 				add("call-not-subsequence", fmt.Sprintf("batch %d call %d carries %v which is not a subsequence of %v", e.batch, k, kc.ids, b.Recs))
+			}
+			if kc.stream != streamName {
+				add("wrong-stream-name", fmt.Sprintf("batch %d call %d went to stream %q, the worker was configured with %q", e.batch, k, kc.stream, streamName))
 			}
 			for _, r := range kc.raw {
 				if o, ok := bb.orig[r.id]; !ok || o.data != r.data || o.pk != r.pk {
@@ -799,6 +1106,9 @@ func monitor(c kcase, obs kobs, built []*builtBatch) (vs []core.Violation, outsi
 			}
 			if sd {
 				add("written-after-shutdown", fmt.Sprintf("batch %d was reported written although shutdown was requested before its last call started", e.batch))
+			} else if l := len(e.calls); l > 0 && e.calls[l-1].step.Cancel && stepFailed(e.calls[l-1].step) {
+				// shutdown arrived between a failed attempt and the next one: the batch is unfinished
+				add("written-after-shutdown", fmt.Sprintf("batch %d was reported written although shutdown was requested during its last call (call %d), which failed: no further attempt was made and the failed records were never accepted", e.batch, l-1))
 			}
 		}
 		if b.Pre {
@@ -1125,24 +1435,72 @@ func classify(c kcase, obs kobs) (tags []string, nontrivial bool) {
 func init() {
 	core.Register(core.Component{Name: "KINESIS", Replay: replay, Run: func(rng *rand.Rand, n int, corpusDir string, rep *core.Report) string {
 		cases := loadCorpus(corpusDir)
+		notEligible := map[string]int{}
 		for i := 0; i < n; i++ {
-			cases = append(cases, genCase(rng, rng.Intn(4) == 0))
+			c := genCase(rng, rng.Intn(4) == 0)
+			if i%5 == 4 { // the production share: a function of the index, the PRNG stream is untouched
+				normalize(&c)
+				if why := chooseCtor(&c); why != "" {
+					notEligible[why]++
+				}
+			}
+			cases = append(cases, c)
 		}
-		rep.Rule = "corpus first, then seeded: 75% cases whose answers all lie inside the AWS response contract (per attempt: success, whole-call error, or a non-empty failure subset with matching count; success rate 15/35/60% per case), 25% adversarial cases in which ~22% of the answers are ill-formed (count 0 with error codes, count>0 without, response shorter/longer than the request, count != number of codes, nil FailedRecordCount, backoff.Permanent). 1-6 batches of 0..500 records, budgets 0..7, every failing response entry carries an ErrorCode string drawn from ProvisionedThroughputExceededException / InternalFailure / other strings (per response: all throttled 25%, all InternalFailure 25%, mixed 50%); ~6% of cases are a sink that fails at record level on every call of the budget; shutdown requested during ~7% of calls, before ~4% of first attempts, before the start in ~2% of cases. Non-trivial: some batch needed a second call, or a shutdown request, budget exhaustion or panic was observed; distinct by case."
+		for why, k := range notEligible {
+			rep.Distribution["ctor-share:stays-on-test-constructor("+why+")"] += k
+		}
+		rep.Notes = append(rep.Notes, sdkRetryProbe())
+		rep.Rule = "constructors: every 5th generated case (20%) and the corpus cases that say so build their worker through the PRODUCTION path instead of NewTransporterWithInterface: ctor=production is kinesis/transporter.NewTransporter with the case's small count policy, a real aws-sdk-go session + Kinesis client (static dummy credentials, region us-east-1) and endpoint = an httptest server of the harness that decodes each PutRecords request (X-Amz-Target Kinesis_20131202.PutRecords, JSON 1.1) with the SDK's jsonutil and hands it to the SAME scripted fake; ctor=factory is kinesis.New (factory.go, config map, its own 1.5s/5min ExponentialBackOff and private logger) and is used when the first answer to every batch is a success (no retry, hence no sleep; no panic, which could not be observed). SDK-level retries are kept out by construction: NewTransporter leaves aws.Config.MaxRetries unset (SDK default: 3 retries with sleeps for 5xx, throttling codes and connection errors), so scripted whole-call errors travel as HTTP 400 InvalidArgumentException, which the SDK retryer never retries; per-record ErrorCodes are data of a 200 answer; one worker call = one request = one fake call. Not expressible on the wire and kept on the test constructor: backoff.Permanent (perm becomes err in the production share), empty batches and answers that make the next request empty (the SDK validates Records client-side). A production/factory case whose plumbing failed (undecodable request, unscripted client-side error such as a connection failure) is dropped and counted under ctor-share:dropped-infrastructure, never emitted or monitored. Then: corpus first, then seeded: 75% cases whose answers all lie inside the AWS response contract (per attempt: success, whole-call error, or a non-empty failure subset with matching count; success rate 15/35/60% per case), 25% adversarial cases in which ~22% of the answers are ill-formed (count 0 with error codes, count>0 without, response shorter/longer than the request, count != number of codes, nil FailedRecordCount, backoff.Permanent). 1-6 batches of 0..500 records, budgets 0..7, every failing response entry carries an ErrorCode string drawn from ProvisionedThroughputExceededException / InternalFailure / other strings (per response: all throttled 25%, all InternalFailure 25%, mixed 50%); ~6% of cases are a sink that fails at record level on every call of the budget; shutdown requested during ~7% of calls, before ~4% of first attempts, before the start in ~2% of cases. Non-trivial: some batch needed a second call, or a shutdown request, budget exhaustion or panic was observed; distinct by case."
 		var sb strings.Builder
 		sb.WriteString("From Bifrost.model Require Import Base KinesisRetry.\nDefinition cases : list kcase := [\n")
 		seen := map[string]bool{}
 		outsideCount := 0
+		timing := os.Getenv("VERIF_PRODCTOR_TIMING") != ""
+		var wireTotal, wireMax time.Duration
 		for i, c := range cases {
 			normalize(&c)
+			t0 := time.Now()
 			obs, built := runImpl(c)
-			if i > 0 {
+			if c.Ctor != "" {
+				d := time.Since(t0)
+				wireTotal += d
+				if d > wireMax {
+					wireMax = d
+				}
+			}
+			if obs.infra != "" {
+				// plumbing, not behaviour: the case is dropped (its index i is the position in the
+				// corpus+generated sequence, not in the emitted list)
+				core.Bump(rep, "ctor-share:dropped-infrastructure")
+				rep.Notes = append(rep.Notes, fmt.Sprintf("DROPPED %s-constructor case (sequence position %d, mode %s): %s", c.Ctor, i, c.Mode, obs.infra))
+				continue
+			}
+			idx := rep.Evaluations // index in the emitted list / rep.CaseIndex
+			if idx > 0 {
 				sb.WriteString(";\n")
 			}
 			sb.WriteString(caseGallina(c, obs))
 			rep.CaseIndex = append(rep.CaseIndex, core.RawJSON(c))
 			rep.Evaluations++
 			core.Bump(rep, "mode:"+strings.SplitN(c.Mode, ":", 2)[0])
+			switch c.Ctor {
+			case "":
+				core.Bump(rep, "ctor:NewTransporterWithInterface")
+			case ctorProduction:
+				core.Bump(rep, "ctor:production(NewTransporter+SDK+http)")
+			case ctorFactory:
+				core.Bump(rep, "ctor:factory(kinesis.New+SDK+http)")
+			}
+			if c.Ctor != "" {
+				for _, e := range obs.entries {
+					rep.Distribution["ctor-share:requests-over-http"] += len(e.calls)
+					for k, kc := range e.calls {
+						if kc.step.Cancel && stepFailed(kc.step) && k == len(e.calls)-1 {
+							core.Bump(rep, "ctor-share:shutdown-between-failed-attempt-and-next")
+						}
+					}
+				}
+			}
 			core.Bump(rep, fmt.Sprintf("budget:%d", c.N))
 			core.Bump(rep, fmt.Sprintf("batches:%d", len(c.Batches)))
 			for _, b := range c.Batches {
@@ -1169,10 +1527,10 @@ func init() {
 				core.Bump(rep, t)
 			}
 			for _, h := range obs.harness {
-				rep.Notes = append(rep.Notes, fmt.Sprintf("HARNESS case %d: %s", i, h))
+				rep.Notes = append(rep.Notes, fmt.Sprintf("HARNESS case %d: %s", idx, h))
 				core.Bump(rep, "harness-problem")
 			}
-			key := string(core.RawJSON(c.Batches)) + fmt.Sprint(c.N, c.Ctx0)
+			key := string(core.RawJSON(c.Batches)) + fmt.Sprint(c.N, c.Ctx0, c.Ctor)
 			if nontrivial && !seen[key] {
 				rep.Nontrivial++
 			}
@@ -1186,9 +1544,12 @@ func init() {
 				outsideCount++
 				core.Bump(rep, "outside-contract:written-with-unaccepted-record")
 				if outsideCount <= 3 {
-					rep.Notes = append(rep.Notes, fmt.Sprintf("outside the AWS response contract (not a C11 violation; see C11_written_all_accepted_outside_contract_refuted), case %d: %s", i, o))
+					rep.Notes = append(rep.Notes, fmt.Sprintf("outside the AWS response contract (not a C11 violation; see C11_written_all_accepted_outside_contract_refuted), case %d: %s", idx, o))
 				}
 			}
+		}
+		if timing {
+			fmt.Fprintf(os.Stderr, "KINESIS production/factory cases: total %v, slowest %v\n", wireTotal, wireMax)
 		}
 		sb.WriteString("\n].\nDefinition M := Eval vm_compute in mismatches kcase_ok cases.\nPrint M.\n")
 		return sb.String()
@@ -1203,7 +1564,14 @@ func replay(cs json.RawMessage) string {
 	normalize(&c)
 	obs, built := runImpl(c)
 	var sb strings.Builder
-	fmt.Fprintf(&sb, "budget %d retries, TerminateCtx cancelled before start: %v\n", c.N, c.Ctx0)
+	ctor := c.Ctor
+	if ctor == "" {
+		ctor = "NewTransporterWithInterface"
+	}
+	fmt.Fprintf(&sb, "constructor %s, budget %d retries, TerminateCtx cancelled before start: %v\n", ctor, c.N, c.Ctx0)
+	if obs.infra != "" {
+		fmt.Fprintf(&sb, "INFRASTRUCTURE (the case would be dropped): %s\n", obs.infra)
+	}
 	for _, e := range obs.entries {
 		b := c.Batches[e.batch]
 		fmt.Fprintf(&sb, "batch %d records %v (shutdown before first attempt: %v)\n", e.batch, b.Recs, b.Pre)
